@@ -54,7 +54,7 @@ class C12(Prop):
         # the scoping layer as a heap of list objects: which operation writes to which existing object, which
         # results are new objects (DznModel.ScopingHeap; theorems C12.step_frame / step_fresh / run_frame)
         from harness import heap_ops as H
-        n = 300 if tier == 'quick' else scale(20000)
+        n = 600 if tier == 'quick' else scale(20000)
         yield 'heap', [H.gen_case(rng) for _ in range(n)]
 
     def impl(self, case):
@@ -73,7 +73,7 @@ class C12(Prop):
         from dznpy.support_files import strict_port, ilog, misc_utils, meta_helpers, multi_client_selector, mutex_wrapped
         from harness.props.c03 import mk_portscfg
         rng, tier = ctx['rng'], ctx['tier']
-        nhist = 30 if tier == 'quick' else scale(800)
+        nhist = 45 if tier == 'quick' else scale(800)
         failures, disagreements, shapes = [], [], []
         evaluations = 0
         all_cases = []
